@@ -167,11 +167,10 @@ func run(r *vt.Run, t vt.TB, s spec) {
 				tdef = &s.DB.Tables[i]
 			}
 		}
-		known := tdef != nil && e1.IntegerArgsPK(tdef.Def)
+		if tdef != nil && e1.IntegerArgsPK(tdef.Def) {
+			r.Count("shape:integer-with-type-arguments-as-primary-key", 1)
+		}
 		fail := func(sig, format string, args ...interface{}) {
-			if known {
-				sig = e1.KnownIntegerArgs
-			}
 			r.Violation(t, s, sig, "%s: %s", def, fmt.Sprintf(format, args...))
 		}
 		cat := e1.ReadCatalog(r, t, env.O, "q", name)
